@@ -289,7 +289,10 @@ func offGrid(on bool) time.Duration {
 var ErrScripted = errors.New("verif: scripted curve evaluation error")
 
 // RunLoop executes sc against the real controller.Run inside a synctest bubble.
-func RunLoop(t *testing.T, sc LoopScenario) (res LoopResult) {
+func RunLoop(t *testing.T, sc LoopScenario) (res LoopResult) { return RunLoopWith(t, sc, nil) }
+
+// RunLoopWith is RunLoop on a given persistence (used as it is, nothing is pre-seeded).
+func RunLoopWith(t *testing.T, sc LoopScenario, given persistence.Persistence) (res LoopResult) {
 	BaseConfig()
 	configuration.CurrentConfig.RpmPollingRate = time.Duration(sc.RpmPollMs)*time.Millisecond + pollOffset
 	configuration.CurrentConfig.RpmRollingWindowSize = sc.RpmWindow
@@ -312,7 +315,10 @@ func RunLoop(t *testing.T, sc LoopScenario) (res LoopResult) {
 		pers = persistence.NewPersistence(dbPath)
 		defer os.Remove(dbPath)
 	}
-	if !sc.Fan.NoStored {
+	if given != nil {
+		pers = given
+	}
+	if !sc.Fan.NoStored && given == nil {
 		data := sc.Fan.Measured
 		if data == nil {
 			data = map[int]float64{}
@@ -536,4 +542,28 @@ func RunLoop(t *testing.T, sc LoopScenario) (res LoopResult) {
 		res.EndedStep = last
 	}
 	return res
+}
+
+// RunInit performs what `fan2go fan init` does for the fan: delete both stored entries, then the
+// exported RunInitializationSequence - inside a bubble, on fresh objects.
+func RunInit(t *testing.T, spec FanSpec, law RpmLaw, pers persistence.Persistence) (writes []WriteRec, finalPwm int, err error) {
+	BaseConfig()
+	rig := BuildRig(spec, 0, law, 0)
+	defer rig.Close()
+	synctest.Test(t, func(st *testing.T) {
+		controller.VerifResetInitMutex()
+		t0 := time.Now()
+		for _, d := range []*Dev{rig.Pwm, rig.Enable, rig.Rpm} {
+			d.SetT0(t0)
+		}
+		ctl := controller.NewFanController(pers, rig.Fan, control_loop.NewDirectControlLoop(nil), 200*time.Millisecond)
+		if err = pers.DeleteFanPwmData(rig.Fan); err != nil {
+			return
+		}
+		if err = pers.DeleteFanPwmMap(rig.Fan.GetId()); err != nil {
+			return
+		}
+		err = ctl.RunInitializationSequence()
+	})
+	return rig.Pwm.Writes(0), rig.Pwm.Get(), err
 }
